@@ -34,6 +34,24 @@ def int_init_model():
     return lsl.GraphBuilder().add(y).build_model()
 
 
+def plain_node_model():
+    """a strong value node that is not wrapped in a variable (a legal position key) as the block of a Gibbs kernel"""
+    import liesel.model as lsl
+    import tensorflow_probability.substrates.jax.distributions as tfd
+    tau = lsl.Value(2.0, _name="tau")
+    scale = lsl.Var(lsl.Calc(lambda t: jnp.sqrt(t), tau), name="scale")
+    mu = lsl.Var(0.3, lsl.Dist(tfd.Normal, loc=0.0, scale=scale), name="mu")
+    mu.parameter = True
+    y = lsl.Var(jnp.array([0.1, 0.7]), lsl.Dist(tfd.Normal, loc=mu, scale=scale), name="y")
+    y.observed = True
+    return lsl.GraphBuilder().add(y).build_model()
+
+
+def gibbs_plain(key, st):
+    r = st["y_value"].value - st["mu_value"].value
+    return {"tau": 0.5 + jnp.mean(r ** 2) + 0.5 * jax.random.uniform(key, ())}
+
+
 def gibbs_tau(key, st):
     r = st["y_value"].value - st["mu_value"].value
     return {"tau": 0.25 + jnp.mean(r ** 2) + 0.5 * jax.random.uniform(key, ())}
@@ -87,6 +105,12 @@ def make_sequence(kind):
         elif kind == "liesel:Gibbs+Gibbs(second reads the first's block)":
             ks = [gs.GibbsKernel(["sigma_transformed"], gibbs_fn), gs.GibbsKernel(["beta"], gibbs_beta)]
             kst = [{}, {}]
+        elif kind == "liesel:RW+Gibbs(block is a plain value node)":
+            model = plain_node_model()
+            iface = gs.LieselInterface(model)
+            ks = [gs.RWKernel(["mu"]), gs.GibbsKernel(["tau"], gibbs_plain)]
+            kst = [RWKernelState(0.4), {}]
+            param_keys = ["mu_value", "tau"]
         elif kind == "liesel:RW+Gibbs":
             ks = [gs.RWKernel(["beta"]), gs.GibbsKernel(["sigma_transformed"], gibbs_fn)]
             kst = [RWKernelState(0.4), {}]
@@ -106,8 +130,7 @@ def make_sequence(kind):
         st0 = model.state
         vals0 = M.values_of(st0)
         free = {k: jnp.asarray(vals0[k]) for k in M.strong_names(model) if np.asarray(vals0[k]).dtype.kind == "f" and not M.is_concrete_name(k)}
-        mkstate = lambda sv: iface.update_state(sv, st0)
-        ref_model = (int_init_model() if kind == "liesel:Gibbs(int-initialised parameter)+RW" else regression_with_report())   # built independently, not with the interface's copy helper
+        ref_model = (int_init_model() if kind == "liesel:Gibbs(int-initialised parameter)+RW" else plain_node_model() if "plain value node" in kind else regression_with_report())   # built independently, not with the interface's copy helper
         strong_all = M.strong_names(model)
 
         def recompute(nv, st):
@@ -119,6 +142,10 @@ def make_sequence(kind):
                 nd._outdated = nd.name not in strong_all
             ref_model.update()
             return ref_model.state
+
+        def mkstate(sv):
+            """a coherent, complete input state at arbitrary input values, produced WITHOUT the interface under test (which must not have seen these values before)"""
+            return recompute({**{k: vals0[k] for k in strong_all}, **sv}, st0)
         valsof = M.values_of
     else:
         import liesel.goose as gs
@@ -298,8 +325,8 @@ def obligations(kind, e_seq, e_orc, ks, param_keys, s_free, has_derived):
 
 def main():
     chk = Check("C09")
-    kinds = ["liesel:RW+Gibbs", "liesel:NUTS+MH", "dict:RW+MH", "liesel:Gibbs+RW+RW(ids not sorted)", "liesel:Gibbs(int-initialised parameter)+RW", "liesel:RW+MH(position keys are value-node names)", "liesel:Gibbs+Gibbs(second reads the first's block)"] if chk.tier == "quick" else \
-        ["liesel:RW+Gibbs", "liesel:IWLS+RW", "liesel:NUTS+MH", "liesel:Gibbs+RW+RW(ids not sorted)", "dict:RW+MH", "dict:NUTS+RW", "liesel:Gibbs(int-initialised parameter)+RW", "liesel:RW+MH(position keys are value-node names)", "liesel:Gibbs+Gibbs(second reads the first's block)"]
+    kinds = ["liesel:RW+Gibbs", "liesel:NUTS+MH", "dict:RW+MH", "liesel:Gibbs+RW+RW(ids not sorted)", "liesel:Gibbs(int-initialised parameter)+RW", "liesel:RW+MH(position keys are value-node names)", "liesel:Gibbs+Gibbs(second reads the first's block)", "liesel:RW+Gibbs(block is a plain value node)"] if chk.tier == "quick" else \
+        ["liesel:RW+Gibbs", "liesel:IWLS+RW", "liesel:NUTS+MH", "liesel:Gibbs+RW+RW(ids not sorted)", "dict:RW+MH", "dict:NUTS+RW", "liesel:Gibbs(int-initialised parameter)+RW", "liesel:RW+MH(position keys are value-node names)", "liesel:Gibbs+Gibbs(second reads the first's block)", "liesel:RW+Gibbs(block is a plain value node)"]
     obs = []
     for kind in kinds:
         res = chk.guarded(f"{kind}:trace", f"[{kind}] tracing the kernel sequence", scenario, chk, kind)
